@@ -54,7 +54,7 @@ pub fn gen_call(
                     env,
                 );
                 // the value is computed before the target is assigned
-                generate(right, env, ctx, constr)?;
+                generate(right, &env.is_expr(true), ctx, constr)?;
                 generate(left, &env_assigned_to, ctx, constr)?;
                 Ok(env_assigned_to)
             } else {
@@ -63,7 +63,8 @@ pub fn gen_call(
         }
         Node::FunctionCall { name, args } => {
             let f_name = StringName::try_from(name)?;
-            gen_vec(args, env, false, ctx, constr)?;
+            // arguments are values: a conditional argument is tied to its branches
+            gen_vec(args, &env.is_expr(true), false, ctx, constr)?;
 
             Ok(if f_name == StringName::from(function::PRINT) {
                 args.iter()
@@ -238,7 +239,8 @@ fn property_call(
             Expected::new(property.pos, &Field { name: lit.clone() })
         }
         Node::FunctionCall { name, args } => {
-            gen_vec(args, env, false, ctx, constr)?;
+            // arguments are values: a conditional argument is tied to its branches
+            gen_vec(args, &env.is_expr(true), false, ctx, constr)?;
             let args = [last_inst.clone()]
                 .iter()
                 .chain(args)
